@@ -267,7 +267,8 @@ func (e *env) judge(c *cell, o observation) {
 	// server instead of the handler's are always of the second kind.
 	rcode := dns.RcodeToString[m.Rcode]
 	own := fmt.Sprint("handler-opt=", c.sh.OwnOPT)
-	serverBuilt := c.sh.OwnOPT == 0 || m.Rcode != dns.RcodeSuccess
+	// (Variant 5 is an upstream OPT without EDE, which the ECS cache removes.)
+	serverBuilt := c.sh.OwnOPT == 0 || c.sh.OwnOPT == 5 || m.Rcode != dns.RcodeSuccess
 	if serverBuilt {
 		own = "server-built-opt"
 	}
@@ -421,6 +422,12 @@ func (e *env) judge(c *cell, o observation) {
 			// The class in which a request changed by the handler shows.
 			r.Bucket("ecs_cache:"+src+":datagram-client-advertising-less-than-4096-and-answer-larger-than-that", 1)
 		}
+		if c.upstreamOPTTainted && c.form.Pad < 0 && !c.form.KA {
+			// The class in which hop-by-hop options of the upstream's OPT
+			// (cached or not) would reach a client that asked for neither.
+			r.Bucket("ecs_cache:"+src+":client-asking-for-neither-after-upstream-opt-with-padding-and-keepalive:"+fam, 1)
+			r.Bucket("ecs_cache:"+src+":client-asking-for-neither-after-upstream-opt-with-padding-and-keepalive", 1)
+		}
 		outcome = src + "-" + outcome
 	}
 
@@ -430,6 +437,14 @@ func (e *env) judge(c *cell, o observation) {
 			opt = "query-without-opt"
 		}
 		r.Bucket("silent_handler:"+c.sh.NoWrite+":answered:"+fam+":"+opt, 1)
+	}
+	if c.path.jsonWire && c.phase == "" {
+		switch {
+		case hsize > streamMax:
+			r.Bucket("json_wire:handler-response-larger-than-65535:judged", 1)
+		case hsize >= streamMax-16:
+			r.Bucket("json_wire:handler-response-within-16-of-65535:judged", 1)
+		}
 	}
 	if c.path.family == famUDP && c.path.cfg == 0 && c.form.Adv > 512 && full > 512 {
 		r.Bucket("udp_configured_max_0:advertised>512-and-answer>512:judged", 1)
